@@ -168,7 +168,7 @@ pub fn dap_check(prop: &str, tier: &str) -> i32 {
 
 pub fn layer_b_check(prop: &str, tier: &str) -> i32 {
     let seed = seed_from_env();
-    let histories = if tier == "quick" { 40 } else { 400 };
+    let histories = if tier == "quick" { if matches!(prop, "C11" | "C14") { 16 } else { 40 } } else { 400 };
     let histories = std::env::var("BSSIM_HISTORIES").ok().and_then(|s| s.parse().ok()).unwrap_or(histories);
     // one interpreter per (toolchain, opt-level)
     let mut specs = vec![];
@@ -200,6 +200,8 @@ pub fn layer_b_check(prop: &str, tier: &str) -> i32 {
     }
     let (rule, probes): (&str, Vec<&str>) = match prop {
         "C09" => ("one case = one (thread scripts for up to N gated debuggee threads, user history of arm/disarm/continue/stepi/watch, schedule of advance/deliver/race/signal decisions from the run's tape); at every reported stop every live task must be in a ptrace stop and equal thread_state(), every scripted arrival at an armed site must be reported exactly once for the arriving thread, and at exit the non-idempotent site counters must equal the scripted executions; distinct = distinct canonical decision+event log; non-trivial = at least 3 operations", vec!["c09.stops_checked", "c09.arrivals", "c09.breakpoint_reports", "c09.sibling_advanced_during_group_stop", "c09.deliver_choice_among_several", "c09.spawns", "c09.thread_exits", "c09.completed_runs"]),
+        "C11" => ("Layer B leg: one case = one (gated multi-thread debuggee, user history of arm (by address / by function name) / continue / stepi, ended by detach at a stop of some kind); at the instant of PTRACE_DETACH the process text must equal the file and no thread may carry an enabled debug register; afterwards the harness alone releases the gates and the process must run to its scripted end (site counters, output, exit status)", vec!["c11.mt_detach", "c11.mt_detach_clean", "c11.mt_detached_process_completed", "c09.armed_by_function_name"]),
+        "C14" => ("Layer B leg: one case = one (gated multi-thread debuggee with threads created and exiting at scripted points, history of watchpoint add/remove interleaved with continue); at every reported stop every live thread's DR0-3/DR7 (PTRACE_PEEKUSER by the harness) must encode exactly the active watchpoints", vec!["c14.thread_dr_image_checked", "c14.mt_watch_added", "c09.spawns"]),
         _ => ("one case = one (thread scripts with self-raised signals, external signals sent by the simulator to running and to stopped threads at seam decision points incl. right before single steps, user history); sent = handled (per-signal handler counters, SIGINT never handled) = reported (one stop per non-quiet signal naming the receiving thread, none for quiet ones); distinct = distinct canonical decision+event log; non-trivial = at least 3 operations", vec!["c10.signals_sent", "c10.signal_reports", "c10.sent_to_running_thread", "c10.sent_to_stopped_thread", "c10.self_raised", "c10.injections_seen", "c09.completed_runs"]),
     };
     let cfg = CheckCfg {
@@ -232,8 +234,35 @@ pub fn layer_b_check(prop: &str, tier: &str) -> i32 {
     orch::run_check(cfg, ws, corpus_info)
 }
 
+/// Run two legs of one property and merge their evidence into /verif/evidence/<prop>.json.
+fn two_legs(prop: &str, tier: &str) -> i32 {
+    let path = format!("{}/evidence/{prop}.json", orch::VERIF);
+    let a = layer_a_check(prop, tier);
+    let ev_a: Value = std::fs::read_to_string(&path).ok().and_then(|s| serde_json::from_str(&s).ok()).unwrap_or(json!({}));
+    let b = layer_b_check(prop, tier);
+    let ev_b: Value = std::fs::read_to_string(&path).ok().and_then(|s| serde_json::from_str(&s).ok()).unwrap_or(json!({}));
+    let mut m = ev_a.clone();
+    let num = |v: &Value, k: &str| v["coverage"][k].as_u64().unwrap_or(0);
+    m["coverage"]["evaluations"] = json!(num(&ev_a, "evaluations") + num(&ev_b, "evaluations"));
+    m["coverage"]["distinct_nontrivial"] = json!(num(&ev_a, "distinct_nontrivial") + num(&ev_b, "distinct_nontrivial"));
+    m["coverage"]["rule"] = json!(format!("{} || {}", ev_a["coverage"]["rule"].as_str().unwrap_or(""), ev_b["coverage"]["rule"].as_str().unwrap_or("")));
+    m["coverage"]["leg_layer_b"] = ev_b["coverage"].clone();
+    m["violations"] = json!(ev_a["violations"].as_u64().unwrap_or(0) + ev_b["violations"].as_u64().unwrap_or(0));
+    m["wall_s"] = json!(ev_a["wall_s"].as_f64().unwrap_or(0.0) + ev_b["wall_s"].as_f64().unwrap_or(0.0));
+    let mut assumptions: Vec<Value> = ev_a["assumptions"].as_array().cloned().unwrap_or_default();
+    for x in ev_b["assumptions"].as_array().cloned().unwrap_or_default() {
+        if !assumptions.contains(&x) {
+            assumptions.push(x);
+        }
+    }
+    m["assumptions"] = json!(assumptions);
+    let _ = std::fs::write(&path, serde_json::to_string_pretty(&m).unwrap());
+    if a == 1 || b == 1 { 1 } else if a == 2 || b == 2 { 2 } else { 0 }
+}
+
 pub fn check(prop: &str, tier: &str) -> i32 {
     match prop {
+        "C11" | "C14" => two_legs(prop, tier),
         "C09" | "C10" => layer_b_check(prop, tier),
         "C01" | "C02" | "C03" | "C05" | "C11" | "C14" | "C15" | "C16" => layer_a_check(prop, tier),
         "C12" => dap_check(prop, tier),
